@@ -35,6 +35,7 @@ def run(db, chk) -> None:
     check_publish_order(db, chk, "C13.R6-publish-after-build")
     chk.floor("C13.R6-publish-after-build", 2)
     check_recompute_before_publish(db, chk, "C13.R7-recompute-before-publish")
+    check_move_is_complete(db, chk, "C13.R8-move-is-complete")
 
 
 def _node(name, **attrs):
@@ -258,6 +259,18 @@ def _backward(db, chk, cs, cg):
             if H.match("$st['stack_index'].to_list()", v) is not None or H.match("$st['stack_index'].tolist()", v) is not None:
                 idx_var = H.name_id(t)
         ok = idx_var is not None and dm == [f"self.call_stacks[{idx_var}[1]]"] and dbw == [f"self.call_stacks[{idx_var}[0]]"]
+    # the candidate stacks are THIS rank's: the selection mask is  rank == <rank parameter>  &  label in {bwd, main}
+    def conj(e):
+        return conj(e.left) + conj(e.right) if isinstance(e, ast.BinOp) and isinstance(e.op, ast.BitAnd) else [e]
+    masks = [n.slice for n in ast.walk(f) if isinstance(n, ast.Subscript) and any(x is sel[0][0] for x in ast.walk(n.slice))] if len(sel) == 1 else []
+    rank_param = next((p_ for p_ in H.param_names(f) if p_ != "self"), None)
+    okr = None
+    if masks:
+        parts = conj(masks[0])
+        rk = [p_ for p_ in parts if H.match(f"self.mapping['rank'].eq({rank_param})", p_) is not None or H.match(f"self.mapping['rank'] == {rank_param}", p_) is not None]
+        okr = len(parts) == 2 and len(rk) == 1
+    chk.ob(rule, "the two stacks are selected among the stacks of the rank being built (rank == <rank> & label in {bwd, main})", okr, cg.loc(f), found=[ast.unparse(m_)[:160] for m_ in masks],
+           accepted="self.mapping['rank'].eq(rank) & self.mapping['label'].isin(['bwd', 'main'])", why="without the rank condition the selection holds the stacks of all ranks built so far: from the second rank on it never has exactly two rows and nothing is attached")
     chk.ob(rule, "attachment only when the rank has exactly one main and one bwd stack; sorted by label so that index 0 is bwd and 1 is main", ok, cg.loc(f),
            found=[ast.unparse(s)[:120] for s in f.body], accepted="label isin [bwd, main] sorted by label ascending; shape[0] == 2; bwd = stack [0], main = stack [1]")
     g = cg.func("CallGraph._link_main_and_bwd_stacks._get_backward_parents")
@@ -438,3 +451,32 @@ def check_recompute_before_publish(db, chk, rule: str) -> None:
             chk.ob(rule, f"{w} receives the caller's scope flag", H.name_id(b.get("apply_whole_graph")) == "apply_whole_graph", cs.loc(c), found=ast.unparse(c), accepted="apply_whole_graph=apply_whole_graph",
                    why="a constant False recomputes only this thread's nodes while the whole node map is published")
     chk.floor(rule, 6)
+
+
+def check_move_is_complete(db, chk, rule: str) -> None:
+    """CallStackGraph._update_parent moves nodes: (1) child.parent = new parent, (2) new parent's children gain them, (3) each OLD parent's
+    children list loses them (written back), so that every node is listed under exactly one parent when depths are recomputed."""
+    cs = db.mod(CS)
+    f = cs.func("CallStackGraph._update_parent")
+    where = cs.loc(f)
+    ps = [p_ for p_ in H.param_names(f) if p_ != "self"]
+    newp = ps[1] if len(ps) == 2 else None
+    parent_stores = [n for n in ast.walk(f) if isinstance(n, ast.Assign) and any(H.match("self.nodes[$i].parent", t) is not None for t in n.targets)]
+    ok1 = newp is not None and len(parent_stores) == 1 and H.name_id(parent_stores[0].value) == newp
+    gains = [c for c in ast.walk(f) if isinstance(c, ast.Call) and isinstance(c.func, ast.Attribute) and c.func.attr in ("extend", "append") and H.match(f"self.nodes[{newp}].children", c.func.value) is not None]
+    # removals: a mutation of self.nodes[<p>].children for a p other than the new parent
+    losses = []
+    for n in ast.walk(f):
+        if isinstance(n, ast.Call) and isinstance(n.func, ast.Attribute) and n.func.attr in ("remove", "pop", "clear") and H.match("self.nodes[$p].children", n.func.value) is not None:
+            losses.append(n)
+        if isinstance(n, ast.Assign) and any(H.match("self.nodes[$p].children", t) is not None or H.match("self.nodes[$p].children[:]", t) is not None for t in n.targets):
+            losses.append(n)
+        if isinstance(n, ast.Delete) and any(H.match("self.nodes[$p].children[$$i]", t) is not None for t in n.targets):
+            losses.append(n)
+    losses = [l for l in losses if newp not in {x.id for x in ast.walk(l.func.value if isinstance(l, ast.Call) else l.targets[0]) if isinstance(x, ast.Name)}]
+    chk.ob(rule, "a moved node's parent becomes the new parent", ok1, where, found=[ast.unparse(x) for x in parent_stores], accepted=f"self.nodes[idx].parent = {newp}")
+    chk.ob(rule, "the new parent's children gain the moved nodes", len(gains) == 1, where, found=[ast.unparse(x) for x in gains], accepted=f"self.nodes[{newp}].children.extend(<moved>)")
+    chk.ob(rule, "every old parent's children list loses the moved nodes (the list itself is updated)", len(losses) >= 1, where, found=[ast.unparse(x)[:100] for x in losses] or "no write to an old parent's children",
+           accepted="self.nodes[p].children.remove(c) for the moved c (or an assignment of the filtered list)",
+           why="a node that stays listed under its old parent is reached twice by the depth recomputation and keeps the depth of the stale path")
+    chk.floor(rule, 3)
